@@ -377,7 +377,7 @@ func (n *linNamer) pathCons(st *State) []linCons {
 		if f == nil {
 			continue
 		}
-		if f.lo > -(1<<40) {
+		if f.lo > -(1 << 40) {
 			cs = append(cs, linCons{linK(f.lo).sub(linA(id.name))})
 		}
 		if f.hi < 1<<40 {
